@@ -380,7 +380,7 @@ _SCHEMAS = {
     "advise_corrupt_share": Schema(
         """
     request = {
-      reason: tstr .size (1..32765)
+      reason: tstr .size (0..32765)
     }
     """
     ),
